@@ -49,7 +49,17 @@ RULE = ("every plane (ordered) tree with <= max_nodes nodes (all out-degrees >= 
         "x starts {Tree, seed, every child of the seed, a deepest internal node} x every iterator kind and flag "
         "combination, len, apply x filters {T, F, is-leaf, depth parity}, same oracle; that layer is exhaustive over the "
         "stated set only, it is not a size bound. "
-        "A case key = one (tree [, height pattern], start, iterator kind); its evaluations = every flag combination x "
+        "STATE BETWEEN CALLS (small universe, node bounds in bounds.state_between_calls): (1) Tree.apply / Node.apply / a Newick "
+        "write whose callback raises at every position k of the callback sequence, followed by a normal apply on the "
+        "same tree, on another tree and by as_string(newick), each judged by the bracket oracle; a callback that runs a "
+        "complete apply / Newick write from inside every position k (inner and outer sequence judged); (2) for every ordered "
+        "pair of 18 iterator families: the first consumed for every k items and left suspended or closed, then a fresh "
+        "complete run of the second (same tree; of the first on another tree), then the suspended one resumed; two iterators "
+        "advanced in strict alternation, and in EVERY interleaving pattern on trees up to the stated size; (3) complete runs "
+        "of everything, one structural edit through the public API (new_child, insert_new_child(0), remove_child, "
+        "reseed_at, reroot_at_node at every admissible node), complete runs again judged against the structure re-read "
+        "from the primitive links. "
+        "A case key = one (tree [, height pattern], start, iterator kind) resp. one (tree, first call, position); its evaluations = every flag combination x "
         "every filter of the family (one library call each, counted in iterator_calls); "
         "non-trivial = the tree has at least 3 nodes")
 ASSUMPTIONS = [
@@ -60,6 +70,9 @@ ASSUMPTIONS = [
     "Tree.ageorder_node_iter is driven on ultrametric trees with integer edge lengths and computes ages itself; "
     "monotonicity is judged on the reference ages",
     "'the seed' excluded by exclude_seed_node / exclude_seed_edge is the tree's seed node (a subtree start that has a parent is kept)",
+    "state layer: the Newick string of a tree with labels t<i> / n<i> and integer lengths is exactly the bracket rendering "
+    "(checked on the untouched tree first); edits that raise or leave a malformed tree are other properties' business and are "
+    "counted, not judged",
     "list accessors (nodes, edges, leaf_nodes, internal_nodes, leaf_edges, internal_edges, Node.leaf_nodes), child and ancestor "
     "iterators are only required to deliver exactly the right members once each",
 ]
@@ -70,7 +83,10 @@ MANIFEST = {
             "every flag combination and a complete family of filters and compared with an order oracle computed from the "
             "nested-tuple tree: no iterator skips, repeats or misorders a node or edge on any of these trees.  The same "
             "oracle was run on a stated set of 25 large representatives (stars to width 130, ladders to 65 tips, balanced "
-            "trees to 64 leaves, a broom, a chain of 40) to expose size-triggered faults (block trims, batch sizes).",
+            "trees to 64 leaves, a broom, a chain of 40) to expose size-triggered faults (block trims, batch sizes).  Call sequences were "
+            "explored as well: a call aborted by a failing callback at every position, re-entrant callbacks, iterators "
+            "abandoned after every k items, two iterators interleaved, and traversals before / after a structural edit - "
+            "no traversal is disturbed by state left behind by an earlier, unfinished or concurrent one.",
     "note": "trusted: the harness's own recursive walks over the nested tuple; Node._child_nodes as ground truth of structure",
     "technique": "exhaustive enumeration of plane trees x starts x iterators x filters against a reference traversal",
 }
@@ -93,6 +109,18 @@ def bounds(tier):
         b = {"max_nodes": 10, "all_subset_filters_up_to_nodes": 7, "all_height_patterns_up_to_internal": 4,
              "all_height_patterns_up_to_nodes": 9, "height_alphabet": [0, 1, 2]}
     b["large_representatives (exhaustive over this stated set, both tiers)"] = LARGE
+    q = tier == "quick"
+    b["state_between_calls"] = {
+        "aborted_and_reentrant_apply_max_nodes": b["max_nodes"],
+        "aborted_apply_from_subtree_starts_max_nodes": 6 if q else 7,
+        "reentrant_newick_max_nodes": 6 if q else 7,
+        "abandoned_iterator_max_nodes": 5 if q else 6,
+        "interleaved_alternating_max_nodes": 6 if q else 7,
+        "interleaved_all_patterns_max_nodes": 3 if q else 4,
+        "structural_edit_max_nodes": 6 if q else 7,
+        "iterator_families": ["%s.%s" % (f[0], f[1]) for f in FAMS],
+        "edit_operations": list(EDIT_OPS),
+    }
     return b
 
 
@@ -210,9 +238,10 @@ class Env(object):
     """One plane tree: reference arrays indexed by pre-order number, and the live
     dendropy tree built from it through the node API."""
 
-    def __init__(self, pt, heights=None, set_ages=False, desc=None):
+    def __init__(self, pt, heights=None, set_ages=False, desc=None, live=None):
         self.pt = pt
         self.desc = desc        # descriptor of a 'large representative' (None in the small universe)
+        self.rooted = True
         ch, par, dep = [], [], []
 
         def rec(t, p, d):
@@ -243,8 +272,12 @@ class Env(object):
         def snap(i):
             L = None if par[i] is None else self.h[par[i]] - self.h[i]
             return (lab.get(i), None if self.leaf[i] else "n%d" % i, L, tuple(snap(c) for c in ch[i]))
-        self.snap = snap(0)
-        self.tree = build.build_tree((True, self.snap))
+        if live is None:
+            self.snap = snap(0)
+            self.tree = build.build_tree((True, self.snap))
+        else:       # adopt an existing (edited) tree: pt was read from its primitive links by live_pt()
+            self.tree = live
+            self.rooted, self.snap = ref.snapshot(live)
         nodes = []
 
         def walk(nd):
@@ -252,7 +285,7 @@ class Env(object):
             for c in nd._child_nodes:
                 walk(c)
         walk(self.tree._seed_node)
-        if len(nodes) != n or ref.snapshot(self.tree) != (True, self.snap):
+        if len(nodes) != n or ref.snapshot(self.tree) != (self.rooted, self.snap):
             raise RuntimeError("harness: built tree differs from the plane tree %r" % (pt,))
         self.nodes = nodes
         self.nid = dict((id(nd), i) for i, nd in enumerate(nodes))
@@ -303,7 +336,16 @@ class Env(object):
         return out
 
     def unchanged(self):
-        return ref.snapshot(self.tree) == (True, self.snap) and not ref.wellformed(self.tree)
+        return ref.snapshot(self.tree) == (self.rooted, self.snap) and not ref.wellformed(self.tree)
+
+
+def live_pt(tree):
+    """plane tree of a live dendropy tree, from Node._child_nodes only"""
+    def rec(nd, d):
+        if d > 300:
+            raise RuntimeError("live_pt: depth > 300 (cycle?)")
+        return tuple(rec(c, d + 1) for c in nd._child_nodes)
+    return rec(tree._seed_node, 0)
 
 
 def default_heights(env):
@@ -788,6 +830,440 @@ def run_tree_age(pt, ctx, b):
     ctx.count("age_trees")
 
 
+# ---------------------------------------------------------------------------
+# 'state between calls' layer: sequences of calls on the small universe.  Every
+# scenario is a self-contained, JSON-able descriptor `sc`; run_state_tree() runs all
+# scenarios of one tree on shared objects (hidden library state is what is being
+# hunted), replay() re-runs one scenario from scratch.
+
+class Abort(Exception):
+    pass
+
+
+class Relabel(object):
+    """a Ctx view that files every violation under <prefix><signature><suffix> with the scenario as its case"""
+
+    def __init__(self, ctx, prefix, suffix, sc):
+        self.ctx, self.prefix, self.suffix, self.sc = ctx, prefix, suffix, sc
+        self.counters = ctx.counters
+
+    def violation(self, sig, message, case):
+        self.ctx.violation(self.prefix + sig + self.suffix, "[%s] %s" % (sc_text(self.sc), message),
+                           {"meth": "__state__", "sc": self.sc})
+
+    def count(self, name, n=1):
+        self.ctx.count(name, n)
+
+    def case(self, *a, **k):
+        self.ctx.case(*a, **k)
+
+    def maximum(self, name, v):
+        self.ctx.maximum(name, v)
+
+    def sample(self, obj, limit=4):
+        self.ctx.sample(obj, limit)
+
+
+def sc_text(sc):
+    return ", ".join("%s=%s" % (k, pt_str(tup(v)) if k == "tree" else v) for k, v in sorted(sc.items()))
+
+
+PARTNER_PT = (((), ()), ((),), ())
+
+# iterator families driven in the abandon / interleave / edit scenarios: (target, method, kwargs, start rule)
+FAMS = [
+    ("Node", "preorder_iter", {}, "seed"),
+    ("Node", "postorder_iter", {}, "seed"),
+    ("Node", "levelorder_iter", {}, "seed"),
+    ("Node", "inorder_iter", {}, "seed"),
+    ("Node", "leaf_iter", {}, "seed"),
+    ("Node", "preorder_internal_node_iter", {}, "seed"),
+    ("Node", "postorder_internal_node_iter", {"exclude_seed_node": True}, "seed"),
+    ("Node", "ageorder_iter", {}, "seed"),
+    ("Node", "child_node_iter", {}, "seed"),
+    ("Node", "ancestor_iter", {"inclusive": True}, "last"),
+    ("Tree", "preorder_edge_iter", {}, None),
+    ("Tree", "postorder_edge_iter", {}, None),
+    ("Tree", "levelorder_edge_iter", {}, None),
+    ("Tree", "inorder_edge_iter", {}, None),
+    ("Tree", "leaf_edge_iter", {}, None),
+    ("Tree", "preorder_internal_edge_iter", {"exclude_seed_edge": True}, None),
+    ("Tree", "postorder_internal_edge_iter", {}, None),
+    ("Tree", "ageorder_node_iter", {"descending": True}, None),
+]
+
+
+def fam_name(f):
+    return "%s.%s" % (f[0], f[1])
+
+
+def fam_start(env, f):
+    if f[0] == "Tree":
+        return None
+    return env.n - 1 if f[3] == "last" else 0
+
+
+def fam_ok(env, f):
+    return domain_ok(env, SPECS[(f[0], f[1])], 0)
+
+
+def fam_iter(env, f):
+    obj = env.tree if f[0] == "Tree" else env.nodes[fam_start(env, f)]
+    return iter(getattr(obj, f[1])(**f[2]))
+
+
+def fam_judge(env, f, objs):
+    """(tag, text) or None for the complete output `objs` of family f"""
+    spec = SPECS[(f[0], f[1])]
+    idmap = env.eid if spec["obj"] == "edge" else env.nid
+    got = []
+    for x in objs:
+        i = idmap.get(id(x))
+        if i is None:
+            return ("foreign-object-yielded", "yielded a %s that is not of the tree" % type(x).__name__)
+        got.append(i)
+    s = fam_start(env, f)
+    return order_problem(env, spec["o"], 0 if s is None else s, f[2], got)
+
+
+def fam_check(env, ctx, f):
+    """a fresh complete run of family f, judged by the ordinary check"""
+    env._base = {}
+    check(env, ctx, f[0], fam_start(env, f), f[1], f[2], None)
+
+
+def render(env):
+    def rec(i):
+        s = ""
+        if env.ch[i]:
+            s = "(" + ",".join(rec(c) for c in env.ch[i]) + ")n%d" % i
+        else:
+            s = "t%d" % env.leaf_ids.index(i)
+        if env.par[i] is not None:
+            s += ":%d" % (env.h[env.par[i]] - env.h[i])
+        return s
+    return rec(0) + ";\n"
+
+
+def check_newick(env, ctx):
+    ctx.count("newick_writes")
+    try:
+        got = env.tree.as_string("newick", suppress_rooting=True)
+    except Exception as e:
+        ctx.violation("Tree.as_string(newick)|exception:%s" % type(e).__name__, repr(e), None)
+        return
+    want = render(env)
+    if got != want:
+        ctx.violation("Tree.as_string(newick)|not-the-bracket-rendering", "wrote %r, the tree is %r" % (got, want),
+                      dict(tree_fields(env), meth="__newick__"))
+
+
+def traced_apply(env, start, on_event):
+    """run (Tree|Node).apply with all three callbacks; on_event(index) is called after event `index` was recorded.
+    Returns (trace, exception or None)."""
+    obj = env.tree if start is None else env.nodes[start]
+    trace = []
+
+    def mk(kind):
+        def f(nd):
+            trace.append((kind, env.nid.get(id(nd), -1)))
+            on_event(len(trace) - 1)
+        return f
+    try:
+        obj.apply(before_fn=mk("before"), after_fn=mk("after"), leaf_fn=mk("leaf"))
+    except Exception as e:
+        return trace, e
+    return trace, None
+
+
+SECONDS = ("apply-same", "apply-other", "newick-same")
+
+
+def second_call(which, env, partner, rctx):
+    if which == "apply-same":
+        check_apply(env, rctx, "Tree", None, (True, True, True))
+    elif which == "apply-other":
+        check_apply(partner, rctx, "Node", 0, (True, True, True))
+    elif which == "newick-same":
+        check_newick(env, rctx)
+    else:
+        raise ValueError(which)
+
+
+def where_of(which):
+    return "|other-tree" if which.endswith("other") else "|same-tree"
+
+
+def sc_abort(sc, env, partner, ctx):
+    """an apply() / Newick write whose callback fails at event k, then a normal second call"""
+    k, start = sc["k"], sc.get("start")
+    if sc["first"] == "apply":
+        first = "%s.apply" % ("Tree" if start is None else "Node")
+
+        def boom(i):
+            if i == k:
+                raise Abort()
+        trace, exc = traced_apply(env, start, boom)
+        want = env.brackets(0 if start is None else start)[:k + 1]
+        if isinstance(exc, Abort) and trace != want:
+            ctx.violation("aborted-call|%s|events-before-the-failure-not-a-prefix-of-the-bracket-sequence" % first,
+                          "[%s] trace %s, prefix %s" % (sc_text(sc), trace, want), {"meth": "__state__", "sc": sc})
+    else:
+        first = "as_string(newick)"
+        calls = [0]
+
+        def compose(nd):
+            calls[0] += 1
+            if calls[0] > k:
+                raise Abort()
+            return "x"
+        try:
+            env.tree.as_string("newick", suppress_rooting=True, node_label_compose_fn=compose)
+        except Abort:
+            pass
+        except Exception:
+            pass
+    ctx.count("aborted_first_calls")
+    rctx = Relabel(ctx, "after-aborted-call|%s->" % first, where_of(sc["second"]), sc)
+    second_call(sc["second"], env, partner, rctx)
+
+
+def sc_reentrant(sc, env, partner, ctx):
+    """a callback of Tree.apply that itself runs a complete apply / Newick write at event k"""
+    k = sc["k"]
+    rin = Relabel(ctx, "reentrant|Tree.apply>", "|inner" + where_of(sc["inner"]), sc)
+
+    def nested(i):
+        if i == k:
+            second_call(sc["inner"], env, partner, rin)
+    trace, exc = traced_apply(env, None, nested)
+    ctx.count("reentrant_calls")
+    case = {"meth": "__state__", "sc": sc}
+    name = {"apply-same": "Tree.apply", "apply-other": "Node.apply", "newick-same": "as_string(newick)"}[sc["inner"]]
+    if exc is not None:
+        ctx.violation("reentrant|Tree.apply>%s|outer|exception:%s" % (name, type(exc).__name__), "[%s] %r" % (sc_text(sc), exc), case)
+    elif trace != env.brackets(0):
+        ctx.violation("reentrant|Tree.apply>%s|outer|trace-not-the-bracket-sequence%s" % (name, where_of(sc["inner"])),
+                      "[%s] outer trace %s, bracket sequence %s" % (sc_text(sc), trace, env.brackets(0)), case)
+
+
+def sc_abandon(sc, env, partner, ctx):
+    """an iterator of family F consumed for k items and abandoned (left suspended, or closed), then a fresh complete
+    run of family G on the same tree / of F on another tree; a suspended F is then resumed to its end"""
+    F, G = FAMS[sc["F"]], FAMS[sc["G"]]
+    k = sc["k"]
+    case = {"meth": "__state__", "sc": sc}
+    try:
+        it = fam_iter(env, F)
+        head = list(itertools.islice(it, k))
+    except Exception as e:
+        ctx.violation("abandoned-iterator|%s|exception:%s" % (fam_name(F), type(e).__name__), "[%s] %r" % (sc_text(sc), e), case)
+        return
+    if sc["mode"] == "closed":
+        if hasattr(it, "close"):
+            it.close()
+        it = None
+    ctx.count("abandoned_iterators")
+    other = sc["where"] == "other"
+    rctx = Relabel(ctx, "after-abandoned-iterator|%s->" % fam_name(F), "|%s|%s" % ("other-tree" if other else "same-tree", sc["mode"]), sc)
+    fam_check(partner if other else env, rctx, G)
+    if it is not None:
+        try:
+            full = head + list(itertools.islice(it, 3 * env.n + 8))
+        except Exception as e:
+            ctx.violation("after-abandoned-iterator|%s->%s|resumed-first|exception:%s" % (fam_name(F), fam_name(G), type(e).__name__),
+                          "[%s] %r" % (sc_text(sc), e), case)
+            return
+        prob = fam_judge(env, F, full)
+        if prob:
+            ctx.violation("after-abandoned-iterator|%s->%s|resumed-first|%s" % (fam_name(F), fam_name(G), prob[0]),
+                          "[%s] %s" % (sc_text(sc), prob[1]), case)
+
+
+def step_pattern(env, A, B, pattern):
+    """advance two iterators according to `pattern` ('alt' or a string of A/B steps); returns the two outputs"""
+    its = {"A": fam_iter(env, A), "B": fam_iter(env, B)}
+    out = {"A": [], "B": []}
+    done = {"A": False, "B": False}
+    cap = 3 * env.n + 8
+
+    def step(w):
+        if done[w]:
+            return
+        try:
+            out[w].append(next(its[w]))
+            if len(out[w]) > cap:
+                done[w] = True
+        except StopIteration:
+            done[w] = True
+    if pattern == "alt":
+        while not (done["A"] and done["B"]):
+            step("A")
+            step("B")
+    else:
+        for w in pattern:
+            step(w)
+        while not (done["A"] and done["B"]):     # whatever the pattern left unfinished
+            step("A")
+            step("B")
+    return out["A"], out["B"]
+
+
+def sc_interleave(sc, env, partner, ctx):
+    A, B = FAMS[sc["A"]], FAMS[sc["B"]]
+    case = {"meth": "__state__", "sc": sc}
+    name = "%sx%s" % (fam_name(A), fam_name(B))
+    ctx.count("interleavings")
+    try:
+        ga, gb = step_pattern(env, A, B, sc["pattern"])
+    except Exception as e:
+        ctx.violation("interleaved|%s|exception:%s" % (name, type(e).__name__), "[%s] %r" % (sc_text(sc), e), case)
+        return
+    for which, f, got in (("first", A, ga), ("second", B, gb)):
+        prob = fam_judge(env, f, got)
+        if prob:
+            ctx.violation("interleaved|%s|%s|%s" % (name, which, prob[0]), "[%s] %s: %s" % (sc_text(sc), fam_name(f), prob[1]), case)
+
+
+EDIT_OPS = ("new_child", "insert_new_child_0", "remove_child", "reseed_at", "reroot_at_node")
+
+
+def edits_of(env):
+    out = []
+    for x in range(env.n):
+        out.append(["new_child", x])
+        if not env.leaf[x]:
+            out.append(["insert_new_child_0", x])
+        if x:
+            out.append(["remove_child", x])
+            if not env.leaf[x]:
+                out.append(["reseed_at", x])
+                out.append(["reroot_at_node", x])
+    return out
+
+
+def sc_edit(sc, env_unused, partner_unused, ctx):
+    """complete runs of everything; a structural edit through the public API; complete runs again, judged against the
+    structure re-read from the primitive links (a cached visiting order would now be stale)"""
+    env = Env(tup(sc["tree"]), set_ages=True)
+    op, x = sc["edit"]
+    for f in FAMS:
+        if fam_ok(env, f):
+            list(fam_iter(env, f))
+    env.tree.apply(lambda n: None, lambda n: None, lambda n: None)
+    len(env.tree)
+    env.tree.nodes(), env.tree.leaf_nodes(), env.tree.internal_nodes(), env.tree.edges()
+    nd = env.nodes[x]
+    try:
+        if op == "new_child":
+            nd.new_child()
+        elif op == "insert_new_child_0":
+            nd.insert_new_child(0)
+        elif op == "remove_child":
+            nd._parent_node.remove_child(nd)
+        elif op == "reseed_at":
+            env.tree.reseed_at(nd, suppress_unifurcations=False, collapse_unrooted_basal_bifurcation=False)
+        elif op == "reroot_at_node":
+            env.tree.reroot_at_node(nd)
+        else:
+            raise ValueError(op)
+    except ValueError:
+        raise
+    except Exception:
+        ctx.count("edits_that_raised (not judged here)")
+        return
+    if ref.wellformed(env.tree):
+        ctx.count("edits_leaving_a_malformed_tree (not judged here)")
+        return
+    env2 = Env(live_pt(env.tree), live=env.tree)
+    ctx.count("structural_edits")
+    rctx = Relabel(ctx, "after-structural-edit|%s->" % op, "", sc)
+    for (tg, meth) in ITER_KINDS:
+        spec = SPECS[(tg, meth)]
+        if not domain_ok(env2, spec, 0):
+            continue
+        for kwargs in spec.get("kws", [{}]):
+            check(env2, rctx, tg, None if tg == "Tree" else 0, meth, kwargs, None)
+    check_apply(env2, rctx, "Tree", None, (True, True, True))
+    check_apply(env2, rctx, "Node", 0, (True, True, True))
+    check_len(env2, rctx)
+
+
+SCENARIOS = {"abort": sc_abort, "reentrant": sc_reentrant, "abandon": sc_abandon, "interleave": sc_interleave, "edit": sc_edit}
+
+
+def all_patterns(la, lb):
+    """every order of la A-steps and lb B-steps"""
+    out = []
+    for pos in itertools.combinations(range(la + lb), la):
+        p = ["B"] * (la + lb)
+        for i in pos:
+            p[i] = "A"
+        out.append("".join(p))
+    return out
+
+
+def run_state_tree(pt, ctx, b):
+    sb = b["state_between_calls"]
+    env = Env(pt, set_ages=True)
+    partner = Env(PARTNER_PT, set_ages=True)
+    n = env.n
+    check_newick(env, ctx)
+    # (1) aborted apply / Newick write, then a second call; re-entrant apply
+    if n <= sb["aborted_and_reentrant_apply_max_nodes"]:
+        starts = [None] + (list(range(1, n)) if n <= sb["aborted_apply_from_subtree_starts_max_nodes"] else [])
+        for start in starts:
+            for k in range(len(env.brackets(0 if start is None else start))):
+                for second in SECONDS:
+                    sc_abort({"kind": "abort", "tree": pt, "first": "apply", "start": start, "k": k, "second": second}, env, partner, ctx)
+                ctx.case((pt, "abort", "apply", start, k), nontrivial=n >= 3, n=len(SECONDS))
+        for k in range(n):
+            for second in SECONDS:
+                sc_abort({"kind": "abort", "tree": pt, "first": "newick", "start": None, "k": k, "second": second}, env, partner, ctx)
+            ctx.case((pt, "abort", "newick", k), nontrivial=n >= 3, n=len(SECONDS))
+        inners = SECONDS if n <= sb["reentrant_newick_max_nodes"] else SECONDS[:2]
+        for k in range(len(env.brackets(0))):
+            for inner in inners:
+                sc_reentrant({"kind": "reentrant", "tree": pt, "k": k, "inner": inner}, env, partner, ctx)
+            ctx.case((pt, "reentrant", k), nontrivial=n >= 3, n=len(inners))
+    fams = [i for i, f in enumerate(FAMS) if fam_ok(env, f)]
+    # (2) abandoned iterators, then fresh complete runs
+    if n <= sb["abandoned_iterator_max_nodes"]:
+        for fi in fams:
+            F = FAMS[fi]
+            s = fam_start(env, F)
+            total = len(expected_members(env, SPECS[(F[0], F[1])]["o"], 0 if s is None else s, F[2]))
+            for k in range(total + 1):
+                for mode in ("suspended", "closed"):
+                    for gi in fams:
+                        sc_abandon({"kind": "abandon", "tree": pt, "F": fi, "k": k, "mode": mode, "G": gi, "where": "same"}, env, partner, ctx)
+                    if fam_ok(partner, F):
+                        sc_abandon({"kind": "abandon", "tree": pt, "F": fi, "k": k, "mode": mode, "G": fi, "where": "other"}, env, partner, ctx)
+                    ctx.case((pt, "abandon", fi, k, mode), nontrivial=n >= 3, n=len(fams) + 1)
+    # two iterators advanced in turn
+    if n <= sb["interleaved_alternating_max_nodes"]:
+        for ai in fams:
+            for bi in fams:
+                pats = ["alt"]
+                if n <= sb["interleaved_all_patterns_max_nodes"]:
+                    A, B = FAMS[ai], FAMS[bi]
+                    sa, sb_ = fam_start(env, A), fam_start(env, B)
+                    la = len(expected_members(env, SPECS[(A[0], A[1])]["o"], 0 if sa is None else sa, A[2])) + 1
+                    lb = len(expected_members(env, SPECS[(B[0], B[1])]["o"], 0 if sb_ is None else sb_, B[2])) + 1
+                    pats = all_patterns(la, lb)
+                    ctx.count("iterator_pairs_with_all_interleavings")
+                for pat in pats:
+                    sc_interleave({"kind": "interleave", "tree": pt, "A": ai, "B": bi, "pattern": pat}, env, partner, ctx)
+                ctx.case((pt, "interleave", ai, bi), nontrivial=n >= 3, n=len(pats))
+    check_unchanged(env, ctx, "state")
+    # (3) iterate, edit the structure, iterate
+    if n <= sb["structural_edit_max_nodes"]:
+        for ed in edits_of(env):
+            sc_edit({"kind": "edit", "tree": pt, "edit": ed}, None, None, ctx)
+            ctx.case((pt, "edit", ed[0], ed[1]), nontrivial=n >= 2)
+    ctx.count("state_trees")
+
+
 def big_starts(env):
     internals = [i for i in range(env.n) if not env.leaf[i]]
     starts = [0] + list(env.ch[0])
@@ -861,6 +1337,12 @@ def chunk_step(n, layer):
 def chunks(tier):
     b = bounds(tier)
     out = [{"layer": "big", "desc": d, "tier": tier} for d in big_descriptors()]
+    smax = max(v for k, v in b["state_between_calls"].items() if k.endswith("max_nodes"))
+    for n in range(smax, 0, -1):
+        total = CATALAN[n - 1]
+        step = {5: 7, 6: 6, 7: 11, 8: 22, 9: 40, 10: 40}.get(n, 1000)
+        for lo in range(0, total, step):
+            out.append({"layer": "state", "n": n, "lo": lo, "hi": min(total, lo + step), "tier": tier})
     for n in range(b["max_nodes"], 0, -1):      # big chunks first
         total = CATALAN[n - 1]
         for layer in ("iter", "age"):
@@ -880,6 +1362,8 @@ def run_chunk(chunk, ctx):
         pt = trees[k]
         if chunk["layer"] == "iter":
             run_tree_iter(pt, ctx, b)
+        elif chunk["layer"] == "state":
+            run_state_tree(pt, ctx, b)
         else:
             run_tree_age(pt, ctx, b)
     if chunk["layer"] == "iter":
@@ -903,6 +1387,9 @@ def post(tier, auxes, ctx):
     if ctx.counters.get("trees") != want or ctx.counters.get("age_trees") != want:
         raise RuntimeError("harness: enumerated %r / %r trees, the universe has %d" % (
             ctx.counters.get("trees"), ctx.counters.get("age_trees"), want))
+    smax = max(v for k, v in b["state_between_calls"].items() if k.endswith("max_nodes"))
+    if ctx.counters.get("state_trees") != sum(CATALAN[n - 1] for n in range(1, smax + 1)):
+        raise RuntimeError("harness: %r trees in the state layer" % ctx.counters.get("state_trees"))
     if ctx.counters.get("large_trees") != len(big_descriptors()):
         raise RuntimeError("harness: %r large representatives run, %d are listed" % (
             ctx.counters.get("large_trees"), len(big_descriptors())))
@@ -912,6 +1399,16 @@ def post(tier, auxes, ctx):
 
 def replay(case, ctx):
     meth = case["meth"]
+    if meth == "__state__":
+        sc = dict(case["sc"])
+        sc["tree"] = tup(sc["tree"])
+        if "edit" in sc:
+            sc["edit"] = list(sc["edit"])
+        SCENARIOS[sc["kind"]](sc, Env(sc["tree"], set_ages=True), Env(PARTNER_PT, set_ages=True), ctx)
+        return
+    if meth == "__newick__":
+        check_newick(Env(tup(case["tree"]), set_ages=True), ctx)
+        return
     desc = case.get("big")
     if desc:
         if meth == "__unchanged__":
